@@ -344,7 +344,13 @@ def run_case(c):
         from pedantic.decorators.fn_deco_validate.convert_value import convert_value
         x = pyval(c['x'], ctx)
         s = str(x)
-        return {'str': [ord(ch) for ch in s], 'out': outcome(lambda: convert_value(s, type(x)), ctx)}
+        r = {'str': [ord(ch) for ch in s], 'out': outcome(lambda: convert_value(s, type(x)), ctx)}
+        if type(x) is float:
+            # the hypotheses of theorem C14_convert_inverts_str_float, measured on CPython: str(x) is already stripped and
+            # lower-case, and float() reads it back as x
+            r['norm_same'] = s.strip().lower() == s
+            r['float_back'] = float_json(float(s))
+        return r
     if kind == 'prim':
         op = c['op']
         if op == 'show':
